@@ -173,6 +173,9 @@ func contractServes(ct *Contract, prop string) bool {
 	if hasProp(ct.Props, prop) {
 		return true
 	}
+	if (prop == "C18" || prop == "C19") && !ct.Trusted {
+		return true // every function carries the allocation-effect obligation
+	}
 	for _, cs := range [][]*Clause{ct.Requires, ct.Ensures} {
 		for _, c := range cs {
 			if hasProp(c.Props, prop) {
@@ -188,6 +191,11 @@ func contractServes(ct *Contract, prop string) bool {
 			if hasProp(c.Props, prop) {
 				return true
 			}
+		}
+	}
+	for _, v := range ct.Variants {
+		if v.Label == prop {
+			return true
 		}
 	}
 	return false
@@ -237,10 +245,12 @@ func (s *Session) runFunc(key string, mode string) ([]*Obligation, []*Unit) {
 	type job struct {
 		in       *Inst
 		poolCase string
+		variant  *Clause
 	}
 	runOne := func(j job) (*Unit, bool) {
 		u := newUnit(s.prog, s.cf, fi, ct, j.in, mode)
 		u.poolCase = j.poolCase
+		u.variant = j.variant
 		if u.poolCase == "" {
 			u.poolCase = "hit"
 		}
@@ -256,6 +266,19 @@ func (s *Session) runFunc(key string, mode string) ([]*Obligation, []*Unit) {
 			u.verifyFunc()
 		}()
 		u.finish()
+		if j.variant != nil {
+			// keep safety obligations and the clauses labelled with the variant's property
+			var keep []*Obligation
+			for _, o := range u.obls {
+				safety := o.Kind == "no-panic" || o.Kind == "pre@call" || o.Kind == "no-overflow" || o.Kind == "panics-iff" || o.Kind == "cover"
+				if safety || hasProp(o.Props, j.variant.Label) {
+					o.Props = []string{j.variant.Label}
+					o.Name += "@" + j.variant.Label
+					keep = append(keep, o)
+				}
+			}
+			u.obls = keep
+		}
 		again := false
 		if u.sawPoolGet {
 			for _, o := range u.obls {
@@ -268,7 +291,12 @@ func (s *Session) runFunc(key string, mode string) ([]*Obligation, []*Unit) {
 	}
 	var jobs []job
 	for _, in := range s.instsFor(fi, ct) {
-		jobs = append(jobs, job{in, ""})
+		jobs = append(jobs, job{in, "", nil})
+		for _, v := range ct.Variants {
+			if variantFilter == "" || variantFilter == v.Label {
+				jobs = append(jobs, job{in, "", v})
+			}
+		}
 	}
 	results := make([][]*Unit, len(jobs))
 	var wg sync.WaitGroup
@@ -283,7 +311,7 @@ func (s *Session) runFunc(key string, mode string) ([]*Obligation, []*Unit) {
 			u, again := runOne(jobs[k])
 			results[k] = append(results[k], u)
 			if again {
-				u2, _ := runOne(job{jobs[k].in, "miss"})
+				u2, _ := runOne(job{jobs[k].in, "miss", jobs[k].variant})
 				results[k] = append(results[k], u2)
 			}
 		}()
@@ -460,6 +488,9 @@ func solveOne(o *Obligation, budgetS int, cross bool) {
 		}
 	}
 }
+
+// variantFilter restricts variant runs to one property ("" = all).
+var variantFilter string
 
 var (
 	tierMu   sync.Mutex
